@@ -18,9 +18,12 @@ against the all-flags model `Model/LayoutFlags.lean` (`direct`; correspondence o
 Failing declarations are re-rooted at the failing aggregate and shrunk member by member (`shrink`).
 """
 import os
+import sys
 
 import common
 from common import InfraError
+
+sys.path.insert(0, os.path.join(common.VERIF, "translate"))
 
 MANIFEST = {
     "text": "Kernel-checked theorems that the transcription of cffi's struct/union field loop (x86-64 gcc flags) "
@@ -39,7 +42,7 @@ MANIFEST = {
             "backend through complete_struct_or_union(sflags) but have no theorem and no compiler oracle; forced "
             "offsets ('...' structs) and C integer overflow of sizes are not modelled; x & ~(a-1) is modelled as "
             "x - x % a (justified for powers of two by andnot_eq_alignDown). Alignments are assumed to be 1,2,4,8,16.",
-    "technique": "Lean 4 proof (simulation relation between cffi's (byte,bit) state and a bit cursor, induction over "
+    "technique": "translator (C expressions of the field loop -> Generated/LayoutExprs.lean) + Lean 4 proof (simulation relation between cffi's (byte,bit) state and a bit cursor, induction over "
                  "the field list and over nesting) + differential correspondence with the real backend and real gcc",
 }
 
@@ -766,6 +769,13 @@ def direct(ctx, n):
 
 
 # ----------------------------------------------------------------------------- entry points
+
+def translators(ctx):
+    """Generated/LayoutExprs.lean: every arithmetic expression and condition of the x86-64/gcc path of
+    b_complete_struct_or_union_lock_held, re-extracted from the working tree (raises when the function was reshaped)."""
+    import layout_exprs
+    return [layout_exprs.translator]
+
 
 def _ensure_finding(ctx):
     """Until the lead adds the C01 line to KNOWN_FINDINGS.jsonl, use the built-in copy of it."""
